@@ -339,8 +339,8 @@ func (h *c20H) do(op *c20Op) (wire, golit string, ok bool) {
 			hs := []int{}
 			for _, e := range g.vs {
 				if e.ContainsMarked() || e.Type() == cty.DynamicPseudoType {
-					applies = false
-					return
+					h.outside = "setVal:marked-or-dynamic-element" // a valid call the model has no oracle column for
+					break
 				}
 				hs = append(hs, cty.VerifHash(e))
 			}
@@ -375,8 +375,7 @@ func (h *c20H) do(op *c20Op) (wire, golit string, ok bool) {
 			if v.Type().IsSetType() {
 				var okp bool
 				if perm, okp = c20setPerm(v, out); !okp {
-					applies = false
-					return
+					h.outside = "asValueSlice:set-members-indistinguishable"
 				}
 			}
 			h.pushGo(&c20Go{kind: "slice", vs: out, origin: "asValueSlice"})
@@ -403,8 +402,7 @@ func (h *c20H) do(op *c20Op) (wire, golit string, ok bool) {
 				ids, _, members := c20setFlatV(v.Type().ElementType(), s)
 				for i := 1; i < len(ids); i++ {
 					if ids[i] == ids[i-1] {
-						applies = false
-						return
+						h.outside = "asValueSet:two-members-in-one-bucket"
 					}
 				}
 				for _, e := range members {
@@ -413,8 +411,7 @@ func (h *c20H) do(op *c20Op) (wire, golit string, ok bool) {
 				for i := range hs {
 					for j := 0; j < i; j++ {
 						if hs[i] == hs[j] {
-							applies = false
-							return
+							h.outside = "asValueSet:two-members-in-one-bucket"
 						}
 					}
 				}
@@ -441,8 +438,7 @@ func (h *c20H) do(op *c20Op) (wire, golit string, ok bool) {
 			if v.Type().IsSetType() {
 				var okp bool
 				if perm, okp = c20setPerm(v, es); !okp {
-					applies = false
-					return
+					h.outside = "elements:set-members-indistinguishable"
 				}
 			}
 			for i := range ks {
@@ -525,38 +521,59 @@ func (h *c20H) do(op *c20Op) (wire, golit string, ok bool) {
 			h.vals = append(h.vals, v.WithMarks(g.mk))
 			g.given["withMarks"] = true
 			apiWire, apiLit = fmt.Sprintf("(withMarks %d %d)", op.a, op.b), fmt.Sprintf("%s := %s.WithMarks(%s)", vname(nv), vname(op.a), gname(op.b))
+		case "withSameMarks":
+			v, ok1 := h.val(op.a)
+			w, ok2 := h.val(op.b)
+			if !ok1 || !ok2 {
+				applies = false
+				return
+			}
+			h.vals = append(h.vals, v.WithSameMarks(w))
+			apiWire, apiLit = fmt.Sprintf("(withSameMarks %d %d)", op.a, op.b), fmt.Sprintf("%s := %s.WithSameMarks(%s)", vname(nv), vname(op.a), vname(op.b))
 		case "opAdd":
 			v, ok1 := h.val(op.a)
 			w, ok2 := h.val(op.b)
-			if !ok1 || !ok2 || v.Type() != cty.Number || w.Type() != cty.Number || !c20plain(v) || !c20plain(w) {
+			if !ok1 || !ok2 || v.Type() != cty.Number || w.Type() != cty.Number || v.IsNull() || w.IsNull() {
 				applies = false
 				return
+			}
+			if !c20plain(v) || !c20plain(w) {
+				h.outside = "opAdd:unknown-or-marked-operand"
 			}
 			h.vals = append(h.vals, v.Add(w))
 			apiWire, apiLit = fmt.Sprintf("(opAdd %d %d)", op.a, op.b), fmt.Sprintf("%s := %s.Add(%s)", vname(nv), vname(op.a), vname(op.b))
 		case "opNegate":
 			v, ok := h.val(op.a)
-			if !ok || v.Type() != cty.Number || !c20plain(v) {
+			if !ok || v.Type() != cty.Number || v.IsNull() {
 				applies = false
 				return
+			}
+			if !c20plain(v) {
+				h.outside = "opNegate:unknown-or-marked-operand"
 			}
 			h.vals = append(h.vals, v.Negate())
 			apiWire, apiLit = fmt.Sprintf("(opNegate %d)", op.a), fmt.Sprintf("%s := %s.Negate()", vname(nv), vname(op.a))
 		case "opEquals":
 			v, ok1 := h.val(op.a)
 			w, ok2 := h.val(op.b)
-			if !ok1 || !ok2 || !v.IsWhollyKnown() || !w.IsWhollyKnown() || v.ContainsMarked() || w.ContainsMarked() ||
-				!c20noSets(v.Type()) || !c20noSets(w.Type()) || !c20noNulls(v) || !c20noNulls(w) {
+			if !ok1 || !ok2 {
 				applies = false
 				return
+			}
+			if !v.IsWhollyKnown() || !w.IsWhollyKnown() || v.ContainsMarked() || w.ContainsMarked() ||
+				!c20noSets(v.Type()) || !c20noSets(w.Type()) || !c20noNulls(v) || !c20noNulls(w) {
+				h.outside = "opEquals:unknown-marked-null-or-set-operand" // Equals is total: run it, judge it by (S) only
 			}
 			h.vals = append(h.vals, v.Equals(w))
 			apiWire, apiLit = fmt.Sprintf("(opEquals %d %d)", op.a, op.b), fmt.Sprintf("%s := %s.Equals(%s)", vname(nv), vname(op.a), vname(op.b))
 		case "opLength":
 			v, ok := h.val(op.a)
-			if !ok || !c20plain(v) || !v.IsWhollyKnown() || !(v.Type().IsCollectionType() || v.Type().IsTupleType()) {
+			if !ok || v.IsNull() || !(v.Type().IsCollectionType() || v.Type().IsTupleType()) {
 				applies = false
 				return
+			}
+			if !c20plain(v) || !v.IsWhollyKnown() {
+				h.outside = "opLength:unknown-or-marked-operand"
 			}
 			h.vals = append(h.vals, v.Length())
 			apiWire, apiLit = fmt.Sprintf("(opLength %d)", op.a), fmt.Sprintf("%s := %s.Length()", vname(nv), vname(op.a))
@@ -682,7 +699,7 @@ func (h *c20H) do(op *c20Op) (wire, golit string, ok bool) {
 		case "newPathSet":
 			h.pushGo(&c20Go{kind: "pset", ps: cty.NewPathSet()})
 			apiWire, apiLit = "(newPathSet)", fmt.Sprintf("%s := cty.NewPathSet()", gname(ng))
-		case "psAdd", "psHas":
+		case "psAdd", "psHas", "psRemove":
 			g := h.gk(op.a, "pset")
 			p := h.gk(op.b, "path")
 			if g == nil || p == nil || !c20pathPlain(p.path) {
@@ -694,11 +711,31 @@ func (h *c20H) do(op *c20Op) (wire, golit string, ok bool) {
 				g.ps.Add(p.path)
 				p.given["psAdd"] = true
 				apiLit = fmt.Sprintf("%s.Add(%s)", gname(op.a), gname(op.b))
+			} else if op.name == "psRemove" {
+				g.ps.Remove(p.path)
+				apiLit = fmt.Sprintf("%s.Remove(%s)", gname(op.a), gname(op.b))
 			} else {
 				h.outs = append(h.outs, " "+encBool(g.ps.Has(p.path)))
 				apiLit = fmt.Sprintf("_ = %s.Has(%s)", gname(op.a), gname(op.b))
 			}
 			apiWire = fmt.Sprintf("(%s %d %d %d)", op.name, op.a, op.b, hv)
+		case "psAddAllSteps":
+			g := h.gk(op.a, "pset")
+			p := h.gk(op.b, "path")
+			if g == nil || p == nil || !c20pathPlain(p.path) {
+				applies = false
+				return
+			}
+			hs := []int{}
+			for i := 1; i <= len(p.path); i++ {
+				hs = append(hs, c20pathHash(p.path[:i]))
+			}
+			g.ps.AddAllSteps(p.path)
+			if len(p.path) > 0 {
+				p.given["psAdd"] = true // retained exactly as by Add
+				p.given["psAddAllSteps"] = true
+			}
+			apiWire, apiLit = fmt.Sprintf("(psAddAllSteps %d %d %s)", op.a, op.b, c20ints(hs)), fmt.Sprintf("%s.AddAllSteps(%s)", gname(op.a), gname(op.b))
 		case "psList":
 			g := h.gk(op.a, "pset")
 			if g == nil {
@@ -715,9 +752,12 @@ func (h *c20H) do(op *c20Op) (wire, golit string, ok bool) {
 			apiWire, apiLit = fmt.Sprintf("(psList %d %s)", op.a, c20ints(perm)), fmt.Sprintf("%s := %s.List()", gname(ng), gname(op.a))
 		case "walkBegin":
 			v, ok := h.val(op.a)
-			if !ok || !c20noSets(v.Type()) {
+			if !ok {
 				applies = false
 				return
+			}
+			if !c20noSets(v.Type()) {
+				h.outside = "walkBegin:set-inside"
 			}
 			w, ev := c20startWalk(v)
 			h.walks = append(h.walks, w)
